@@ -125,9 +125,19 @@ func (t *tab) anchors() bool {
 		}
 		t.kname[v] = strings.TrimSuffix(n, "T")
 	}
-	if len(t.kinds) != 7 {
-		t.s.Unk("ANCHOR", "value kinds", "-", fmt.Sprintf("expected 7 kind constants, found %d: the reference table does not cover the new kind", len(t.kinds)))
+	// the kinds a value can have are the constants stored into the kind field
+	// somewhere in the module (other constants of the type, e.g. named codes of
+	// operand pairs, are not kinds); each must be one of the seven documented
+	if stored := t.storedKinds(); len(stored) == 0 {
+		t.s.Unk("ANCHOR", "value kinds", "-", "no store of a kind constant into value.Type found")
 		return false
+	} else {
+		for _, v := range stored {
+			if _, known := t.kname[v]; !known {
+				t.s.Unk("ANCHOR", "value kinds", "-", fmt.Sprintf("a value is built with kind %d, which is none of the 7 documented kinds: the reference table does not cover the new kind", v))
+				return false
+			}
+		}
 	}
 	t.ops = t.p.ConstsOfType("types/bytecode", "OpCode")
 	t.opName = map[int64]string{}
@@ -436,4 +446,58 @@ func (t *tab) canonCond(c absint.CondRec) string {
 		return k
 	}
 	return "!" + k
+}
+
+// storedKinds lists the constants that are stored into the kind field of a
+// value.Type anywhere in the module.
+func (t *tab) storedKinds() []int64 {
+	seen := map[int64]bool{}
+	for _, pk := range t.p.SPkgs {
+		for _, mem := range pk.Members {
+			var fns []*ssa.Function
+			switch x := mem.(type) {
+			case *ssa.Function:
+				fns = append(fns, x)
+			case *ssa.Type:
+				for _, tt := range []types.Type{x.Type(), types.NewPointer(x.Type())} {
+					ms := t.p.SSA.MethodSets.MethodSet(tt)
+					for i := 0; i < ms.Len(); i++ {
+						if f := t.p.SSA.MethodValue(ms.At(i)); f != nil {
+							fns = append(fns, f)
+						}
+					}
+				}
+			}
+			for len(fns) > 0 {
+				fn := fns[0]
+				fns = fns[1:]
+				fns = append(fns, fn.AnonFuncs...)
+				for _, b := range fn.Blocks {
+					for _, ins := range b.Instrs {
+						st, ok := ins.(*ssa.Store)
+						if !ok {
+							continue
+						}
+						fa, ok := st.Addr.(*ssa.FieldAddr)
+						if !ok || fa.Field != t.fTyp {
+							continue
+						}
+						pt, ok := fa.X.Type().Underlying().(*types.Pointer)
+						if !ok || !types.Identical(pt.Elem(), t.valT) {
+							continue
+						}
+						if c, ok := st.Val.(*ssa.Const); ok && c.Value != nil {
+							seen[c.Int64()] = true
+						}
+					}
+				}
+			}
+		}
+	}
+	var out []int64
+	for v := range seen {
+		out = append(out, v)
+	}
+	sort.Slice(out, func(i, j int) bool { return out[i] < out[j] })
+	return out
 }
